@@ -153,7 +153,7 @@ def feed_sites(f):
                 if len(ws) == 1 and not d.get('init'):
                     x = strip_cast(f.term(f.n(ws[0])['ch'][1], inline=False))
                 elif f.single_def(x[2]):
-                    x = strip_cast(f.term(f.single_def(x[2]), inline=False))        # auto next = <successor of in(i)>
+                    x = strip_cast(_resolve_key_locals(f, f.term(f.single_def(x[2]), inline=False)))        # auto next = <successor of in(i)>, auto x = in(i)
             out.append((c, x, nocast(f.term(a[2], inline=False)), [(t, lab) for (t, lab, cn) in conds_of(f, c)], None))
             continue
         for h in helpers:
@@ -297,13 +297,26 @@ def rule_rank_agree(ctx):
         N = ('param', f.params[0]['name'])
         if len(sites) < 4:
             obs.append(Ob('RANK-AGREE', f, 0, 'points fed to the builder', f"only {len(sites)} add sites", UNDECIDED, arm='sites'))
+        def _mismatch(e, yt):
+            # the index differs from the key's own by a constant: a wrong rank; by anything else (another variable, the end of a
+            # run computed by a loop): a driver organised differently, which this rule cannot relate - undecided
+            e_, y_ = _pre(f, e), _pre(f, yt)
+            if e_ == y_:
+                return OK
+            try:
+                va, vb = form.value(e_), form.value(y_)
+                if len(va) == 1 and len(vb) == 1 and (va[0][1] - vb[0][1]).is_const():
+                    return VIOLATED
+            except form.Unrecognised:
+                pass
+            return UNDECIDED
         for (c, x, yt, conds, via) in sites:
             xt = x
-            x = strip_cast(x)
+            x = strip_cast(_resolve_succ_locals(f, _resolve_key_locals(f, x)))
             if is_in_call(x):
                 e = in_arg(x)
-                ok = e == yt
-                obs.append(Ob('RANK-AGREE', f, c, 'a key is added at its own index: add_point(in(e), e)', f"add_point(in({fmt_term(e)}), {fmt_term(yt)})", OK if ok else VIOLATED, arm='plain'))
+                st_ = _mismatch(e, yt)
+                obs.append(Ob('RANK-AGREE', f, c, 'a key is added at its own index: add_point(in(e), e)', f"add_point(in({fmt_term(e)}), {fmt_term(yt)})", st_, arm='plain'))
                 continue
             e = succ_of(x)
             if e is not None:
@@ -311,8 +324,9 @@ def rule_rank_agree(ctx):
                 gap = (e == yt)
                 ok = closing or gap
                 arm = 'closing' if yt == N else 'gap'
+                st_ = OK if ok else (_mismatch(e, yt) if yt != N else VIOLATED)
                 obs.append(Ob('RANK-AGREE', f, c, 'successor points: add_point(succ(in(i)), i) after a duplicate run, add_point(succ(in(n-1)), n) at the end',
-                              f"add_point(succ(in({fmt_term(e)})), {fmt_term(yt)})", OK if ok else VIOLATED, arm=arm))
+                              f"add_point(succ(in({fmt_term(e)})), {fmt_term(yt)})", st_, arm=arm))
                 if gap and not closing:
                     # GAP-GUARD: only if the successor is still smaller than the next key
                     want = ('op', '<', ('sym', 'S'), ('sym', 'NEXT'))
@@ -321,7 +335,7 @@ def rule_rank_agree(ctx):
                     for (t, lab) in conds:
                         if lab is not True:
                             continue
-                        tt = nocast(strip_cast(_resolve_succ_locals(f, t)))
+                        tt = nocast(strip_cast(_resolve_succ_locals(f, _resolve_key_locals(f, t))))
                         seen.append(fmt_term(tt)[:70])
                         # replace the successor term and the next key by symbols, then compare by FORM
                         for s_ in sorted(set(subterms(tt)), key=lambda z: -len(repr(z))):
@@ -350,13 +364,27 @@ def rule_rank_agree(ctx):
     return obs
 
 
+def _resolve_key_locals(f, t, depth=0):
+    """`auto x = in(i);`: a single-definition local initialised with a read of the input stands for that read"""
+    if isinstance(t, tuple):
+        if t and t[0] == 'local' and len(t) == 3 and depth < 4:
+            init = f.single_def(t[2])
+            if init:
+                it = strip_cast(f.term(init, inline=False))
+                if is_in_call(it):
+                    return it
+            return t
+        return tuple(_resolve_key_locals(f, x, depth + 1) for x in t)
+    return t
+
+
 def _resolve_succ_locals(f, t):
     """`auto next = successor(in(i)); if (next < in(i + 1))`: a single-definition local that holds a successor term is replaced by it"""
     if isinstance(t, tuple):
         if t and t[0] == 'local' and len(t) == 3:
             init = f.single_def(t[2])
             if init:
-                it = strip_cast(f.term(init, inline=False))
+                it = strip_cast(_resolve_key_locals(f, f.term(init, inline=False)))
                 if succ_of(it) is not None:
                     return it
             return t
@@ -574,9 +602,15 @@ def rule_seam(ctx):
         elif s_skip and e_skip:
             obs.append(Ob('SEAM', f, calls[0], 'the chunk ranges tile [0, n)', f"both `{st[1]}` and `{en[1]}` are advanced by the duplicate-skip rule", OK, arm='tile'))
         else:
-            # no skip at all: every chunk would start at its nominal boundary, possibly in the middle of a run
-            obs.append(Ob('SEAM', f, calls[0], 'a chunk starts at the first occurrence of its first key', f"`{st[1] if len(st) > 1 else fmt_term(st)}` is not advanced past duplicates of the previous key",
-                          VIOLATED if not s_skip else OK, arm='tile'))
+            # no skip at all: every chunk would start at its nominal boundary, possibly in the middle of a run - a verdict only when
+            # the start is that nominal boundary (a product with the chunk size); boundaries taken from a table or a helper that
+            # this rule does not follow are not
+            def _nominal(t):
+                t = nocast(strip_cast(f.term(f.single_def(t[2]), inline=False))) if (t[0] == 'local' and len(t) == 3 and f.single_def(t[2])) else t
+                return t[0] == 'op' and len(t) == 4 and t[1] == '*'
+            st_ = OK if s_skip else (VIOLATED if _nominal(st) else UNDECIDED)
+            obs.append(Ob('SEAM', f, calls[0], 'a chunk starts at the first occurrence of its first key', f"`{st[1] if len(st) > 1 else fmt_term(st)}` is not advanced past duplicates of the previous key" +
+                          ('' if st_ != UNDECIDED else ' by a loop this rule recognises (it is not the nominal boundary i * chunk_size either)'), st_, arm='tile'))
     for f in six(ctx):
         N, END = ('param', f.params[0]['name']), ('param', f.params[2]['name'])
         E1 = ('op', '-', END, ('lit', 1))
@@ -1158,12 +1192,18 @@ def _cover_eval(t, env, D, G=None, f=None):
                 l, r, o2 = r, l, {'>': '<', '>=': '<='}[o]
             else:
                 o2 = o
+            # now  l o2 r  with o2 in {<, <=}.  succ < next is G; next <= succ is its negation; the two mixed forms
+            # (succ <= next, next < succ) are not functions of G alone
+            neg = False
+            if succ_of(l) is None and succ_of(r) is not None and is_in_call(l):
+                l, r, neg = r, l, True
+                o2 = {'<=': '<', '<': '<='}[o2]      # next <= succ  ==  !(succ < next);  next < succ == !(succ <= next)
             e = succ_of(l)
-            if e is not None and is_in_call(r) and o2 == '<':
+            if e is not None and is_in_call(r):
                 a, b = _cover_eval(nocast(e), env, D, G, f), _cover_eval(in_arg(r), env, D, G, f)
-                if b == a + 1:
+                if b == a + 1 and o2 == '<':
                     if a in G:
-                        return G[a]
+                        return G[a] != neg
                     raise _Unknown('gap predicate at rank %d' % a)
                 raise _Unknown(fmt_term(t))
         a, b = _cover_eval(t[2], env, D, G, f), _cover_eval(t[3], env, D, G, f)
@@ -1216,8 +1256,23 @@ def _retarget(obs, f):
     return out
 
 
+def _resolve_index_locals(f, t, depth=0):
+    """`const size_t last = end - 1;`: a single-definition local whose initialiser is pure index arithmetic (no call, no
+    dereference) is replaced by it, so that the model can evaluate guards written with it"""
+    if isinstance(t, tuple):
+        if t and t[0] == 'local' and len(t) == 3 and depth < 6:
+            init = f.single_def(t[2])
+            if init:
+                it = nocast(strip_cast(f.term(init, inline=False)))
+                if not any(isinstance(x, tuple) and x and x[0] in ('call', 'deref', 'index', 'field', 'construct', 'phi', 'lambda') for x in subterms(it)):
+                    return _resolve_index_locals(f, it, depth + 1)
+            return t
+        return tuple(_resolve_index_locals(f, x, depth) for x in t)
+    return t
+
+
 def _pre(f, t):
-    return nocast(strip_cast(_resolve_succ_locals(f, t)))
+    return nocast(strip_cast(_resolve_index_locals(f, _resolve_succ_locals(f, _resolve_key_locals(f, t)))))
 
 
 def _seg_model(f):
@@ -1251,21 +1306,24 @@ def _seg_model(f):
     Nn, Sn, En = f.params[0]['name'], f.params[1]['name'], f.params[2]['name']
     N = ('param', Nn)
     sites = []
+    other_sites = []
     undecided = None
     for c in [c for c in f.calls() if f.n(c).get('cd') == lid and reachable(f, c)]:
         a = f.n(c)['args']
-        x = strip_cast(_resolve_succ_locals(f, f.term(a[1], inline=False)))
+        x = strip_cast(_resolve_index_locals(f, _resolve_succ_locals(f, _resolve_key_locals(f, f.term(a[1], inline=False)))))
         if x[0] == 'local':
             d = f.defs.get(x[2], {})
             ws = [w for w in d.get('writes', []) if f.n(w).get('op') == '=']
             if len(ws) == 1 and not d.get('init'):
                 x = strip_cast(f.term(f.n(ws[0])['ch'][1], inline=False))      # K next; if ((next = succ) < ...)
-        yt = nocast(f.term(a[2], inline=False))
+        yt = _pre(f, f.term(a[2], inline=False))
         if is_in_call(x) and in_arg(x) == yt:
             kind = 'plain'
         elif succ_of(x) is not None and nocast(succ_of(x)) == yt:
             kind = 'gap'
         else:
+            if succ_of(x) is not None and yt != N:
+                other_sites.append(c)       # a successor point at an index other than its own key's: run-based drivers
             continue        # the closing point and anything else: RANK-AGREE, CLOSING
         conds = []
         loopvar = None
@@ -1315,7 +1373,7 @@ def _seg_model(f):
         return all(_cover_eval(t, env, D, G) == lab for (t, lab) in conds)
 
     bad_c = bad_g = None
-    unknown = None
+    unknown = unknown_g = None
     n_models = 0
     for start in (0, 3):
         for ln in range(1, 7):
@@ -1341,18 +1399,20 @@ def _seg_model(f):
                                     bad_g = (f"start={start}, end={end}, n={n}" + (f" ({dup})" if dup else '') + f": the run ending at rank {k} " +
                                              ('(the last of the chunk) ' if k == end - 1 else '') + 'never gets its successor point')
                             except _Unknown as e:
-                                unknown = str(e)
+                                unknown_g = str(e)
     if plain:
         if bad_c and not unknown:
             obs.append(Ob('INDEX-COVER', f, plain[0][0], req_c, bad_c, VIOLATED, arm='cover'))
-        elif unknown and bad_c:
+        elif unknown:
             obs.append(Ob('INDEX-COVER', f, plain[0][0], req_c, f"a guard outside the model: `{unknown[:70]}`", UNDECIDED, arm='cover'))
         else:
             obs.append(Ob('INDEX-COVER', f, plain[0][0], req_c, f"{len(plain)} sites cover every rank in {n_models} abstract models (lengths 1..6, all duplicate patterns)", OK, arm='cover'))
-    if bad_g and not unknown:
+    if bad_g and not unknown_g and not (other_sites and not gaps):
         obs.append(Ob('SEAM', f, gaps[0][0] if gaps else 0, req_g, bad_g if gaps else 'no add_point(succ(in(e)), e) site', VIOLATED, arm='end-gap'))
-    elif unknown and bad_g:
-        obs.append(Ob('SEAM', f, gaps[0][0] if gaps else 0, req_g, f"a guard outside the model: `{unknown[:70]}`", UNDECIDED, arm='end-gap'))
+    elif bad_g and other_sites and not gaps:
+        obs.append(Ob('SEAM', f, other_sites[0], req_g, 'the successor points are fed at an index this model does not relate to the run (not add_point(succ(in(e)), e))', UNDECIDED, arm='end-gap'))
+    elif unknown_g:
+        obs.append(Ob('SEAM', f, gaps[0][0] if gaps else 0, req_g, f"a guard outside the model: `{unknown_g[:70]}`", UNDECIDED, arm='end-gap'))
     else:
         obs.append(Ob('SEAM', f, gaps[0][0], req_g, f"{len(gaps)} gap sites cover the end of every run in {n_models} abstract models, including runs that end with the chunk", OK, arm='end-gap'))
     return obs
